@@ -25,7 +25,31 @@ EXN = ["IndexError", "ValueError", "TraitError", "TypeError"]
 M61 = 2305843009213693951
 
 
+# identity pool: atoms >= 1000 are 1000*j + v, the j-th distinct object with the value atom v; the objects of one case
+# are created once, kept alive, and recognised again by identity (reset_pool() at the start of every case)
+_POOL = {}
+_IDS = {}
+
+
+def reset_pool():
+    _POOL.clear()
+    _IDS.clear()
+
+
+def pooled(a):
+    if a not in _POOL:
+        v = a % 1000
+        obj = float(v - 300) if 300 <= v < 400 else tuple([1]) if v == 201 else None
+        if obj is None:
+            raise ValueError(a)
+        _POOL[a] = obj
+        _IDS[id(obj)] = a
+    return _POOL[a]
+
+
 def val(a):
+    if a >= 1000:
+        return pooled(a)
     if 0 <= a < 100:
         return a
     if 100 <= a < 200:
@@ -40,6 +64,9 @@ def val(a):
 
 
 def atom(v):
+    a = _IDS.get(id(v))
+    if a is not None and _POOL.get(a) is v:
+        return a
     if type(v) is int:
         return v
     if type(v) is str:
@@ -226,6 +253,14 @@ def apply_op(tl, op):
         r = operator.imul(tl, multiplier(op))
         if r is not tl:
             raise RuntimeError("*= returned a new object")
+    elif k == "InsertX":
+        tl.insert(Idx(op[1]), val(op[2]))
+    elif k == "PopX":
+        return atom(tl.pop(Idx(op[1])))
+    elif k == "ImulX":
+        r = operator.imul(tl, Idx(op[1]))
+        if r is not tl:
+            raise RuntimeError("*= returned a new object")
     elif k == "Insert":
         tl.insert(op[1], val(op[2]))
     elif k == "Pop":
@@ -282,7 +317,35 @@ def run_ops(tl, ops, owner=None, channel="notifier"):
     return hist
 
 
+def run_copy_case(case):
+    """["Copy", kind] first: the list is copied (copy.copy / copy.deepcopy / pickle round trip), the history continues on
+    the copy.  The first observation is that of the copy itself: outcome, contents, and "fresh": none of the
+    original's notifiers is called by the copy."""
+    import pickle
+    reset_pool()
+    owner, tl = make(case)
+    marks = []
+    before = list(tl)
+    old = lambda *a: marks.append(1)  # noqa
+    tl.notifiers.append(old)
+    kind = case["ops"][0][1]
+    try:
+        new = copy.copy(tl) if kind == "copy" else copy.deepcopy(tl) if kind == "deep" else pickle.loads(pickle.dumps(tl))
+    except Exception as e:  # noqa
+        return [{"out": dlib.exn_name(e, EXN), "after": [], "events": [], "ret": None, "fresh": True}]
+    fresh = type(new) is type(tl) and new is not tl and old not in new.notifiers
+    first = {"out": "Ok", "after": [atom(v) for v in new], "events": [], "ret": None}
+    rest = run_ops(new, case["ops"][1:])
+    first["fresh"] = bool(fresh and not marks)        # nothing done to the copy reached the original's notifier
+    if len(tl) != len(before) or any(x is not y for x, y in zip(tl, before)):
+        first["fresh"] = False                          # ... nor changed the original
+    return [first] + rest
+
+
 def run_case(case):
+    if case["ops"] and case["ops"][0][0] == "Copy":
+        return run_copy_case(case)
+    reset_pool()
     owner, tl = make(case)
     return run_ops(tl, case["ops"], owner, case.get("channel", "notifier"))
 
@@ -314,6 +377,7 @@ def run_grid(p):
     for b in range(0, len(ops), bs):
         enc = []
         for op in ops[b:b + bs]:
+            reset_pool()
             owner, tl = make(case)
             enc += enc_obs(run_ops(tl, [op])[0])
         digs.append(fdigest(enc))
